@@ -553,7 +553,12 @@ def check_read_len(ctx, argv, writes, packaged, options, srcs, where):
     table = dict(srcs or {})
     if a_src is not None:
         table.setdefault("sshuttle.assembler", a_src)
-    rep = dict(table_json(table), kind="readlen", where=where, options_json=options, options=opts_canon(options),
+    tj = table_json(table)
+    if "table_hex" not in tj and a_src is not None:
+        # too large to store: the other modules influence neither the read length nor the first write;
+        # a replay takes the shipped sources for them
+        tj = {"table_hex": {"sshuttle.assembler": a_src.hex()}, "other_modules_not_stored": tj["table_sizes"]}
+    rep = dict(tj, kind="readlen", where=where, options_json=options, options=opts_canon(options),
                bootstrap=argv[-1][:300] if argv else None, read_len=n, assembler_bytes=None if a_src is None else len(a_src),
                assembler_chars=None if a_src is None else len(a_src.decode("utf-8", "replace")), first_write_bytes=len(sent))
     ok = True
@@ -1046,11 +1051,7 @@ def part_bootstrap(ctx, scr):
     ctx.extra["bootstrap_runs_with_non_ascii_assembler"] = "%d of %d" % (n_na, len(cases))
     timeouts = 0
     for c in cases:
-        _t0 = time.time()
         timeouts += 1 if bootstrap_case(ctx, scr, c, rng) == "timeout" else 0
-        if os.environ.get("C18_TIMING"):
-            sys.stderr.write("case %s %s %s real=%s na=%s: %.2fs\n" % (c["mode"], c.get("profile"), c["how"], c.get("real_server"),
-                                                                     bool(c["srcs"] and "sshuttle.assembler" in c["srcs"]), time.time() - _t0))
         if timeouts >= 3:
             ctx.disagree("bootstrap", "three bootstrap runs timed out; remaining cases skipped", "timeout", "-")
             break
@@ -1328,8 +1329,6 @@ def replay(ctx, rp):
             print("table too large to be stored; sizes:", r.get("table_sizes"))
             return False
         srcs = dict((n, bytes.fromhex(h)) for n, h in r["table_hex"].items())
-        if set(srcs) == {"sshuttle.assembler"} and r.get("where") == "bootstrap":
-            pass        # the other modules are the shipped sources
         argv, writes, packaged = real_connect(r["options_json"], srcs, stub_zlib=True)
         a = dict(packaged)["sshuttle.assembler"]
         print("bootstrap:", argv[-1][:200])
